@@ -520,8 +520,126 @@ def dynamic_keywords_stream(ctx, res):
         pass
 
 
+def chain_and_owner_stream(ctx, res):
+    """(a) several validators on one field — the constructor's and decorated ones, on leaves and on the item field of a typed list — are
+    a CHAIN: each gets what the one before returned, the field holds what the last returned (a cap applied by the first is still
+    applied after the second; a normalisation is not thrown away); (b) a typed dict handed from ANOTHER configuration of the schema is
+    validated by the receiver — a value validator that reads the receiver's other fields is asked; (c) a section whose feature flag
+    is OFF still validates what is assigned to its fields by every route"""
+    import cincoconfig as cc
+    from cincoconfig.support import validator as register
+    # (a)
+    for route in ("attr", "dotted", "load_tree", "ctor", "list-item"):
+        s = cc.Schema()
+        s.pool.workers = cc.IntField(default=1, validator=lambda cfg, v: min(v, 8))
+        s.pool.tag = cc.StringField(default="t", validator=lambda cfg, v: v.strip())
+        s.pool.tags = cc.ListField(cc.StringField(validator=lambda cfg, v: v.strip()), default=lambda: [])
+
+        @register(s.pool.workers)
+        def even(cfg, v):
+            if v % 2:
+                raise ValueError("must be even")
+            return v
+
+        @register(s.pool.tag)
+        def dashed(cfg, v):
+            return v.lower().replace(" ", "-")
+        register(s.pool.tags.field)(dashed)
+        case = {"stream": "chain", "route": route}
+        res.case(stable(case), kind="chain")
+        try:
+            if route == "ctor":
+                cfg = s(pool={"workers": 64, "tag": "  Blue Green "})
+            else:
+                cfg = s()
+                if route == "attr":
+                    cfg.pool.workers = 64
+                    cfg.pool.tag = "  Blue Green "
+                elif route == "dotted":
+                    cfg["pool.workers"] = 64
+                    cfg["pool.tag"] = "  Blue Green "
+                elif route == "load_tree":
+                    cfg.load_tree({"pool": {"workers": 64, "tag": "  Blue Green ", "tags": ["  Blue Green "]}})
+                else:
+                    cfg.pool.workers = 64
+                    cfg.pool.tag = "  Blue Green "
+                    cfg.pool.tags.append("  Blue Green ")
+            got = [cfg.pool.workers, cfg.pool.tag] + list(cfg.pool.tags)
+        except Exception as e:  # noqa
+            got = "raised %s: %s" % (type(e).__name__, str(e)[:60])
+        want = [8, "blue-green"] + (["blue-green"] if route in ("load_tree", "list-item") else [])
+        if got != want:
+            res.violate("C01:chain-result-not-held", "a field with several validators does not hold the result of the chain (each validator applied to the result of the one before)",
+                        dict(case, held=repr(got), want=repr(want)))
+    # (b)
+    t = cc.Schema()
+    t.ceiling = cc.IntField(default=10)
+    t.quota = cc.DictField(cc.StringField(), cc.IntField(validator=lambda cfg, v: v if v <= cfg.ceiling else (_ for _ in ()).throw(ValueError("above the ceiling"))), default=dict)
+    t.fallback.ceiling = cc.IntField(default=10)
+    t.fallback.quota = cc.DictField(cc.StringField(), cc.IntField(validator=lambda cfg, v: v if v <= cfg.ceiling else (_ for _ in ()).throw(ValueError("above the ceiling"))), default=dict)
+    for route in ("attr", "dotted", "nested", "update"):
+        giver, taker = t(), t()
+        giver.ceiling = 100
+        giver.quota = {"disk": 80}
+        giver.fallback.ceiling = 100
+        giver.fallback.quota = {"mem": 64}
+        case = {"stream": "owner", "route": route}
+        res.case(stable(case), kind="owner")
+        try:
+            if route == "attr":
+                taker.quota = giver.quota
+            elif route == "dotted":
+                taker["quota"] = giver.quota
+            elif route == "nested":
+                taker.fallback.quota = giver.fallback.quota
+            else:
+                taker.quota.update(giver.quota)
+            accepted = True
+        except Exception:  # noqa
+            accepted = False
+        held = dict(taker.fallback.quota if route == "nested" else taker.quota)
+        if accepted and any(v > 10 for v in held.values()):
+            res.violate("C01:holds-undeclared:foreign-proxy", "a typed dict taken from another configuration was stored without asking the receiver's validators: it holds a value the "
+                        "receiver's own field refuses", dict(case, held=held, ceiling=10))
+        elif accepted:
+            (taker.fallback.quota if route == "nested" else taker.quota)["late"] = 5
+            if "late" in (giver.fallback.quota if route == "nested" else giver.quota):
+                res.violate("C01:holds-undeclared:foreign-proxy", "after a typed dict was handed over, an entry added through the receiver shows in the giver", case)
+    # (c)
+    for route in ("attr", "dotted", "load_tree", "override"):
+        u = cc.Schema()
+        u.tls.enabled = cc.FeatureFlagField(default=False)
+        u.tls.port = cc.PortField(default=443)
+        u.tls.min_version = cc.StringField(default="1.2", choices=["1.2", "1.3"])
+        u.tls.alpn = cc.ListField(cc.StringField(max_len=4, transform_case="lower"), default=lambda: [])
+        for key, bad, good, normal in (("port", 99999, "8443", 8443), ("min_version", "1.0", "1.3", "1.3"), ("alpn", ["toolong"], ["H2"], ["h2"])):
+            for value, ok in ((bad, False), (good, True)):
+                cfg = u()
+                try:
+                    if route == "attr":
+                        setattr(cfg.tls, key, value)
+                    elif route == "dotted":
+                        cfg["tls." + key] = value
+                    elif route == "load_tree":
+                        cfg.load_tree({"tls": {key: value}})
+                    else:
+                        import argparse
+                        if isinstance(value, list):
+                            continue
+                        cc.cmdline_args_override(cfg, argparse.Namespace(**{"tls." + key: value}))
+                    accepted = True
+                except Exception:  # noqa
+                    accepted = False
+                held = cfg.tls[key]
+                case = {"stream": "flag-off", "route": route, "field": key, "value": repr(value)}
+                res.case(stable(case), kind="flag-off")
+                if accepted != ok or (ok and (list(held) if isinstance(held, list) else held) != normal) or (not ok and held == value):
+                    res.violate("C01:holds-undeclared:flag-off", "a field of a section whose feature flag is off does not validate what is assigned to it (an invalid value is held, or a "
+                                "valid one is not normalised)", dict(case, accepted=accepted, held=repr(held)))
+
 def run(ctx, n_quick=250, n_thorough=8000):
     res = Result()
+    guard(res, "C01", chain_and_owner_stream, ctx, res)
 
     def orc(res, case, sk, ops, impl, live, tmp, keypath):
         oracle(res, case, sk, ops, impl, live, tmp, keypath)
